@@ -917,13 +917,15 @@ class TypeSystem:
         Returns:
             The newly created type
         """
-        if supertypeName in _INHERITANCE_FINAL_TYPES:
-            raise ValueError(f"[{name}] cannot inherit from [{supertypeName}] because the latter is inheritance final")
-
         if self.contains_type(name, True) and not is_predefined(name):
             raise ValueError(f"Type with name [{name}] already exists!")
 
         supertype = self.get_type(supertypeName)
+
+        # The supertype may have been given by its short name, so the resolved type decides
+        if supertype.name in _INHERITANCE_FINAL_TYPES:
+            raise ValueError(f"[{name}] cannot inherit from [{supertype.name}] because the latter is inheritance final")
+
         new_type = Type(name=name, supertype=supertype, description=description, typesystem=self)
 
         if name != TOP_TYPE_NAME:
